@@ -8,6 +8,7 @@ import numpy as np
 import xarray as xr
 
 from harness import util
+from harness.gen import c08_extra as CX
 from harness.gen import clipgen as CG
 from harness.gen import datasets as G
 from harness.gen import geomspec as S
@@ -24,7 +25,9 @@ RULE = ('datasets of every convention (coordinates as xarray coordinates or plai
         'the optional connectivity tables, 0/1-based, NaN / _FillValue / no fill) with tagged variables: float, int '
         'without fill, int with _FillValue / missing_value, on faces / edges / nodes / no grid, dimensions in random '
         'order x clip geometries (box, cell, polygon, line, point, multi-part, touching a corner / an edge only, covering '
-        'everything, hugging the border) x buffer 0..2; the mask applied directly, and saved to netCDF, reloaded and '
+        'everything, hugging the border; and, once per dataset, a non-rectangular region whose bounding box encloses the '
+        'whole grid while the region does not: L, U, frame with a hole, triangle, pieces in opposite corners, diagonal / '
+        'V / cross of lines) x buffer 0..2; the mask applied directly, the one-step `clip()` call, and saved to netCDF, reloaded and '
         'applied to a second dataset with the same geometry and different tags. The returned dataset is loaded fully '
         '(so the per-variable files and open_mfdataset are exercised). Non-trivial: the mask keeps some but not all '
         'cells; distinct by (recipe, geometry wkt, buffer, variant).')
@@ -44,11 +47,15 @@ def tag_str(da, dtype: str) -> str:
     return s
 
 
-def do_clip(c, mask, second=None):
-    """apply the mask (optionally to the convention of a second dataset) and load the result"""
+def do_clip(c, mask, second=None, one_step=None):
+    """apply the mask (optionally to the convention of a second dataset) and load the result;
+    `one_step=(geometry, buffer)`: the single call `clip(geometry, work_dir, buffer=…)` instead"""
     with CG.WorkDir() as wd:
         target = second if second is not None else c
-        out = target.apply_clip_mask(mask, wd)
+        if one_step is not None:
+            out = target.clip(one_step[0], wd, buffer=one_step[1])
+        else:
+            out = target.apply_clip_mask(mask, wd)
         out = out.load()
         out.close()
         return out
@@ -108,7 +115,7 @@ def check_case(ctx, recipe, built, c, geom_kind, geom, buffer, variant, items) -
         mask_used = mask
     err = None
     try:
-        out = do_clip(c, mask_used, second=target)
+        out = do_clip(c, mask_used, second=target, one_step=(geom, buffer) if variant == 'one-step' else None)
     except Exception as e:
         out = None
         err = f'{type(e).__name__}: {str(e)[:200]}'
@@ -253,10 +260,16 @@ def examine(ctx, recipe, items) -> None:
     kept = [q if (q is not None and vbits[n] == '1') else None for n, q in enumerate(raw)]
     if not any(q is not None for q in kept):
         return
-    for _ in range(4 if built.conv == 'ugrid' else 2):
-        gk, geom = CG.random_geometry(rng, kept)
-        buffer = rng.choice([0, 0, 1, 1, 2])
-        variant = rng.choice(['direct', 'direct', 'reloaded-second'])
+    n_plain = 4 if built.conv == 'ugrid' else 2
+    for j in range(n_plain + 1):
+        if j < n_plain:
+            gk, geom = CG.random_geometry(rng, kept)
+            buffer = rng.choice([0, 0, 1, 1, 2])
+        else:
+            # one region per dataset whose envelope covers the whole grid while the region does not
+            gk, geom = CX.envelope_geometry(rng, kept)
+            buffer = rng.choice([0, 0, 0, 1])
+        variant = rng.choice(['direct', 'direct', 'reloaded-second', 'one-step'])
         ctx.guarded(lambda: check_case(ctx, recipe, built, c, gk, geom, buffer, variant, items),
                     {'recipe': recipe, 'geometry': geom.wkt, 'buffer': buffer, 'variant': variant})
 
